@@ -21,9 +21,9 @@ EXPLANATION = (
 
 
 def run(ctx: Ctx) -> None:
+    ctx.do(TR.rule_alt_paths)
     ctx.do(TR.rule_aff_factor)
     ctx.do(TR.rule_tt_cov)
-    ctx.do(TR.rule_alt_paths)
     ctx.do(TR.rule_layout)
     ctx.do(R.rule_gates)
     ctx.do(C.rule_aff_avg)
